@@ -97,7 +97,17 @@ fn nd_join(run: &Run) -> (u64, u64) {
     let status = nd.child.wait();
     let text = std::fs::read_to_string(&nd.summary).unwrap_or_default();
     let Ok(j) = J::parse(&text) else {
-        run.machinery_error(format!("second-profile run left no summary (status {status:?}); see {}", nd.log));
+        // killed by a fault signal: without its checks the unchecked build walked into undefined behaviour inside the
+        // subject (the checked build panics or aborts at the same place, or the defect exists in this profile only).
+        // Anything else (killed from outside, out of memory) is a failure of the machinery.
+        use std::os::unix::process::ExitStatusExt;
+        let sig = status.as_ref().ok().and_then(|s| s.signal());
+        if matches!(sig, Some(4 | 6 | 7 | 8 | 11)) {
+            let tail: String = std::fs::read_to_string(&nd.log).unwrap_or_default().lines().rev().take(5).collect::<Vec<_>>().into_iter().rev().collect::<Vec<_>>().join(" | ");
+            run.violation("nd:process-crash", format!("nd|process-crash|signal {}", sig.unwrap()), J::obj(vec![("kind", J::s("nd-crash")), ("profile", J::s("nd")), ("property", J::s(run.prop.clone())), ("tier", J::s("quick"))]), format!("[build without debug assertions / overflow checks] the run of this check died with signal {} (last output: {tail})", sig.unwrap()));
+        } else {
+            run.machinery_error(format!("second-profile run left no summary (status {status:?}); see {}", nd.log));
+        }
         return (0, 0);
     };
     let geti = |k: &str| j.get(k).and_then(|x| x.as_i64()).unwrap_or(0) as u64;
